@@ -111,6 +111,31 @@ def run(ctx):
             every = 1 if (k % 4 == 0 or ctx.tier != "quick") else 3
             cases.append(make_case("w%d" % n, ctx.rng, schema, 20 + (k % 3) * 8, every, shaped=(k // 4 if k % 4 == 2 else None)))
             n += 1
+    # stored blobs of realistic size: waveforms of tens of thousands of entries, including the sizes whose stored payload is
+    # an exact multiple of the 16 KiB chunk the container is written in, and grids of thousands of markers
+    from .. import gen_snap as GS
+    for schema in ALL_SCHEMAS:
+        full = [{"op": "create_temporary", "schema": schema}]
+        marks = [None]
+        sn = GS.gen_snapshot(ctx.rng, schema, rich=True, hostile_sentinels=False)
+        sn["sample_rate"] = GS.dbits(44100.0)
+        sn["sample_count"] = 44100 * 234
+        full.append({"op": "create_track", "as": "t0", "snap": sn})
+        marks.append(None)
+        for nwave in (8187, 16379, 24571, 8188, 30000):
+            full.append({"op": "set", "t": "t0", "field": "waveform", "value": GS.rwaveform(ctx.rng, nwave)})
+            marks.append(None)
+            full.append({"op": "rawdump", "views": VIEWS, "checks": True})
+            marks.append({"after": "set:waveform(%d entries)" % nwave})
+            full.append({"op": "verify"})
+            marks.append({"verify_after": "set:waveform(%d entries)" % nwave})
+        big = dict(sn, relative_path=GS.hx("big/second.mp3"), waveform=GS.rwaveform(ctx.rng, 16379), beatgrid=GS.rgrid(ctx.rng, big=True, sizes=(5000,)))
+        full.append({"op": "create_track", "as": "t1", "snap": big})
+        marks.append(None)
+        full.append({"op": "rawdump", "views": VIEWS, "checks": True})
+        marks.append({"after": "create_track(16379 waveform entries, 5000 markers)"})
+        cases.append({"id": "w%d" % n, "schema": schema, "ops": full, "_marks": marks})
+        n += 1
     ctx.sample({"schema": cases[0]["schema"], "ops": [o["op"] for o in cases[0]["ops"]][:16]})
     ctx.assumptions += ["only the encodings the statement lists are judged; columns of unknown meaning (trackCount, ordering, "
                         "isPersisted, lengthCalculated) are not", "the dump is plain SELECT * on the library's own connection",
